@@ -132,7 +132,8 @@ class ElemLib:
         if t.ndim == 1:
             t = t.reshape(-1, 1)
         if t.shape != (ed.nPe, ncol):
-            raise AnalysisError(f"{ed.name}.{method} has shape {t.shape}, expected {(ed.nPe, ncol)}")
+            # (a table with another number of rows than the element has basis functions: reported by the rule that reads it)
+            return ("shape", t.shape, f)
         vs = [Poly.var(v) for v in ed.vars]
         out = []
         for k, fn in enumerate(t.data):
